@@ -24,7 +24,7 @@ type sqInput struct {
 }
 
 var sqClasses = []string{"distinct-real", "repeated-real", "clustered-real", "complex-pairs", "mixed", "zero-eig", "nonnormal", "nonnormal-complex",
-	"identity", "diagonal", "triangular", "hessenberg", "small-int", "graded", "zero-row-col", "rot2x2"}
+	"identity", "diagonal", "triangular", "hessenberg", "small-int", "graded", "zero-row-col", "partially-reduced", "block-diagonal", "rot2x2"}
 
 func distinctReals(n int, r *prng.Rand) []float64 {
 	// well separated, both signs, |lambda| in [0.3, 3]
@@ -274,6 +274,27 @@ func genSquare(class string, n int, r *prng.Rand) sqInput {
 			}
 		}
 		in.A = a
+	case "partially-reduced":
+		// a random subset of the columns is already in reduced form (zero below
+		// the sub-diagonal, some also below the diagonal) next to dense columns
+		a := la.New(n, n)
+		for i := range a.A {
+			a.A[i] = r.Norm()
+		}
+		for j := 0; j < n; j++ {
+			if r.Chance(0.5) {
+				from := j + 2
+				if r.Chance(0.3) {
+					from = j + 1
+				}
+				for i := from; i < n; i++ {
+					a.Set(i, j, 0)
+				}
+			}
+		}
+		in.A = a
+	case "block-diagonal":
+		in.A = blockDiagonal(n, false, r)
 	case "rot2x2":
 		// directed 2x2 witnesses (n is ignored): rotation-like blocks with real and complex eigenvalues
 		w := [][]float64{{1, -2, -3, 1}, {0, 1, -1, 0}, {1, 2, 3, 4}, {2, 1, 1, 2}, {0, 1, 1, 0}, {1, 1, 0, 1}, {1, -2, 3, 1}, {0, 0, 0, 0}}
@@ -286,7 +307,7 @@ func genSquare(class string, n int, r *prng.Rand) sqInput {
 /* symmetric inputs
  * -------------------------------------------------------------------------- */
 
-var symClasses = []string{"distinct", "repeated", "clustered", "zero-eig", "indefinite", "identity", "diagonal", "tridiagonal", "small-int", "graded", "zero-row-col"}
+var symClasses = []string{"distinct", "repeated", "clustered", "zero-eig", "indefinite", "identity", "diagonal", "tridiagonal", "small-int", "graded", "zero-row-col", "partially-reduced", "block-diagonal"}
 var spdClasses = []string{"distinct", "repeated", "clustered", "identity", "diagonal", "tridiagonal", "small-int", "graded", "gram", "early-offdiag"}
 
 // genSym draws a symmetric matrix; spd restricts to positive definite ones
@@ -434,6 +455,29 @@ func genSym(class string, n int, spd bool, kmax float64, r *prng.Rand) *la.Mat {
 		}
 		a.Symmetrize()
 		return a
+	case "partially-reduced":
+		// symmetric; a random subset of the columns (and rows) is already
+		// tridiagonal-reduced, the others are dense
+		a := la.New(n, n)
+		for i := 0; i < n; i++ {
+			for j := 0; j <= i; j++ {
+				a.Set(i, j, r.Norm())
+			}
+		}
+		for k := 0; k < n; k++ {
+			if r.Chance(0.5) {
+				for i := k + 2; i < n; i++ {
+					a.Set(i, k, 0)
+				}
+				if r.Chance(0.3) && k+1 < n && r.Bool() {
+					a.Set(k+1, k, -a.At(k+1, k))
+				}
+			}
+		}
+		a.Symmetrize()
+		return a
+	case "block-diagonal":
+		return blockDiagonal(n, true, r)
 	default: // zero-row-col
 		a := la.SymWithSpectrum(distinctReals(n, r), r)
 		z := r.Intn(n)
@@ -448,7 +492,7 @@ func genSym(class string, n int, spd bool, kmax float64, r *prng.Rand) *la.Mat {
 /* tall inputs (m >= n)
  * -------------------------------------------------------------------------- */
 
-var tallClasses = []string{"distinct", "repeated", "clustered", "rank-deficient", "bidiagonal", "bidiagonal-zero-diag", "diagonal", "identity", "zero-column", "zero-row", "small-int", "graded", "dense-random"}
+var tallClasses = []string{"distinct", "repeated", "clustered", "rank-deficient", "bidiagonal", "bidiagonal-zero-diag", "diagonal", "identity", "zero-column", "zero-row", "small-int", "graded", "dense-random", "partially-reduced"}
 
 func genTall(class string, m, n int, r *prng.Rand) *la.Mat {
 	sv := func() []float64 {
@@ -544,6 +588,33 @@ func genTall(class string, m, n int, r *prng.Rand) *la.Mat {
 			}
 		}
 		return a
+	case "partially-reduced":
+		// a random subset of the columns is already reduced (zero below the
+		// diagonal) and a random subset of the rows (zero right of the
+		// super-diagonal), next to dense columns / rows
+		a := la.New(m, n)
+		for i := range a.A {
+			a.A[i] = r.Norm()
+		}
+		forced := 0
+		if n >= 2 {
+			forced = 1 + r.Intn(n-1) // at least one reduced column j >= 1
+		}
+		for j := 0; j < n; j++ {
+			if r.Chance(0.45) || j == forced && n >= 2 {
+				for i := j + 1; i < m; i++ {
+					a.Set(i, j, 0)
+				}
+			}
+		}
+		for i := 0; i < n; i++ {
+			if r.Chance(0.35) {
+				for j := i + 2; j < n; j++ {
+					a.Set(i, j, 0)
+				}
+			}
+		}
+		return a
 	default:
 		a := la.New(m, n)
 		for i := range a.A {
@@ -551,4 +622,25 @@ func genTall(class string, m, n int, r *prng.Rand) *la.Mat {
 		}
 		return a
 	}
+}
+
+// blockDiagonal: direct sum of dense blocks of random sizes 1..3.
+func blockDiagonal(n int, symmetric bool, r *prng.Rand) *la.Mat {
+	a := la.New(n, n)
+	for k := 0; k < n; {
+		b := 1 + r.Intn(3)
+		if k+b > n {
+			b = n - k
+		}
+		for i := k; i < k+b; i++ {
+			for j := k; j < k+b; j++ {
+				a.Set(i, j, r.Norm())
+			}
+		}
+		k += b
+	}
+	if symmetric {
+		a.Symmetrize()
+	}
+	return a
 }
